@@ -1050,6 +1050,57 @@ pub fn gen_pipe_drop_sweep(rng: &mut Rng) -> Program {
     finish(prog, &g)
 }
 
+/// C09: `try_sync` lands at every scheduling point of the context that is running (or about to stop running) the object's
+/// queue: a pool thread, a caller inside `sync`, a task polling a future.  It must never wait, never run out of order or
+/// beside another operation, a `Busy` must leave everything that was queued completing, and the object must accept a
+/// `try_sync` once it has gone quiet.
+pub fn gen_try_sweep(rng: &mut Rng) -> Program {
+    let ctx = rng.below(3);
+    let pool_max = if ctx == 0 { rng.range(1, 2) as usize } else { rng.range(0, 1) as usize };
+    let mut g = Gen::new(rng, 1);
+    let o = 0;
+    let mut t0 = vec![];
+    let mut envg = vec![];
+    match ctx {
+        0 => {
+            t0.push({ let __k = OpKind::Desync { o, body: vec![Step::Mark, Step::Yield(1)] }; g.op(__k) });
+            for _ in 0..g.rng.range(0, 2) {
+                t0.push({ let __k = OpKind::Desync { o, body: vec![] }; g.op(__k) });
+            }
+        }
+        1 => {
+            if g.rng.permille(600) {
+                t0.push({ let __k = OpKind::Desync { o, body: vec![Step::Yield(1)] }; g.op(__k) });
+            }
+            t0.push({ let __k = OpKind::Mark; g.op(__k) });
+            t0.push({ let __k = OpKind::Sync { o, body: if g.rng.permille(500) { vec![Step::Yield(1)] } else { vec![] } }; g.op(__k) });
+            if g.rng.permille(400) {
+                t0.push({ let __k = OpKind::Desync { o, body: vec![] }; g.op(__k) });
+            }
+        }
+        _ => {
+            let h = g.handle();
+            let gate = g.gate();
+            t0.push({ let __k = OpKind::FutureDesync { o, body: vec![Step::Mark, Step::AwaitGate(gate), Step::Yield(1)], h }; g.op(__k) });
+            if g.rng.permille(400) {
+                t0.push({ let __k = OpKind::Desync { o, body: vec![] }; g.op(__k) });
+            }
+            t0.push({ let __k = OpKind::Await { h }; g.op(__k) });
+            envg.push({ let __k = OpKind::Yield(g.rng.range(1, 4) as u8); g.op(__k) });
+            envg.push({ let __k = OpKind::OpenGate { g: gate }; g.op(__k) });
+        }
+    }
+    let mut inj = vec![{ let __k = OpKind::SweepWait; g.op(__k) }, { let __k = OpKind::TrySync { o, body: if g.rng.permille(300) { vec![Step::Yield(1)] } else { vec![] } }; g.op(__k) }, { let __k = OpKind::SweepDone; g.op(__k) }];
+    for _ in 0..g.rng.range(0, 2) {
+        inj.push({ let __k = OpKind::Yield(g.rng.range(1, 3) as u8); g.op(__k) });
+        inj.push({ let __k = OpKind::TrySync { o, body: vec![] }; g.op(__k) });
+    }
+    let mut prog = base_program(pool_max, 1);
+    prog.faults = Faults { spurious_cv_permille: 0, spurious_park_permille: if g.rng.permille(300) { 100 } else { 0 }, self_wake_permille: 0, dup_wake_permille: 0, keep_waker_permille: 0 };
+    prog.phases = vec![Phase { ctl: vec![], threads: vec![t0, inj], env_gates: envg, env_streams: vec![] }];
+    finish(prog, &g)
+}
+
 /// C13: the resumer is used (or dropped) at every scheduling point of the context that holds the suspension: a pool
 /// thread, or a caller inside `sync` that took the suspended queue over because every pool thread is stalled elsewhere.
 pub fn gen_resume_sweep(rng: &mut Rng) -> Program {
